@@ -220,24 +220,30 @@ def _check_json(ctx: Ctx) -> None:
                                   'decoder rebuilds it in C order: arrays that are not C-contiguous (a transpose, a Fortran array) come back '
                                   'with permuted values' % (order, norm(c_)[:50]), enc.path, c_.lineno, operand='layout')
             keys = {k.value for k in rv.keys if isinstance(k, ast.Constant)}
-            tags = [k for k in keys if k in dec_tags]
-            if len(tags) != 1:
-                ctx.obligation('C17.c', construct, False, {'emitted': sorted(keys)})
+            # the decoder is evaluated on a dictionary that has exactly the emitted keys (membership tests decided, the rest followed
+            # on both branches): it must never hand such a dictionary back unchanged, and the paths that decode it must read every key
+            outs = codec.decode_outcomes(dec, keys)
+            unchanged = [o for o in outs if o[0] in ('unchanged', 'fall-off')]
+            decoded = [o for o in outs if o[0] == 'decoded']
+            if unchanged or not decoded:
+                ctx.obligation('C17.c', construct, False, {'emitted': sorted(keys), 'decoder_paths': [(o[0], sorted(o[1])) for o in outs]})
                 ctx.violation('C17.c', 'NumpyOrSetEncoder.default', 'branch for %s emits keys %s of which none/several '
-                              'is a tag the decoder dispatches on (%s)' % (types, sorted(keys), sorted(dec_tags)),
+                              'is a tag the decoder dispatches on (%s): on load the dictionary is %s' % (
+                                  types, sorted(keys), sorted(dec_tags), 'returned as a plain dictionary' if unchanged else 'never decoded'),
                               enc.path, s.lineno, operand='tag:' + '|'.join(types))
                 continue
-            tag = tags[0]
-            unread = keys - {tag} - dec_tags[tag]
+            consumed = set.intersection(*[set(o[1]) | set(o[2]) for o in decoded])
+            tag = sorted(k for k in keys if any(k in o[2] for o in decoded))
+            unread = keys - consumed
             ok = not unread
-            ctx.obligation('C17.c', construct, ok, {'tag': tag, 'emitted': sorted(keys),
-                                                     'decoder_consumes': sorted(dec_tags[tag])})
+            ctx.obligation('C17.c', construct, ok, {'tag': tag, 'emitted': sorted(keys), 'decoder_consumes': sorted(consumed),
+                                                     'decoder_paths': len(outs)})
             if not ok:
                 ctx.violation('C17.c', 'json_numpy_or_set_obj_hook',
                               'encoder branch for %s emits %s but the decoder branch for tag %r never reads %s: '
                               'that information (e.g. dtype/shape of arrays) is lost on load'
-                              % (types, sorted(keys), tag, sorted(unread)), dec.path, dec.lineno,
-                              operand=tag + ':' + ','.join(sorted(unread)))
+                              % (types, sorted(keys), '/'.join(tag), sorted(unread)), dec.path, dec.lineno,
+                              operand='/'.join(tag) + ':' + ','.join(sorted(unread)))
         else:
             fam = 'int' if set(types) & INT_FAMILY and not set(types) & FLOAT_FAMILY else \
                   'float' if set(types) & FLOAT_FAMILY and not set(types) & INT_FAMILY else None
